@@ -7,7 +7,9 @@ Oracle (all structure is read through lib.snapshot -> RefTree, i.e. raw links, n
   * well formed (snapshot problems + traversal_problems empty), exactly N leaves, every internal node has 2 children;
   * the N leaves carry N pairwise different Taxon objects (different labels too), all members of tree.taxon_namespace;
     a supplied namespace is the tree's namespace, keeps its members and grows only when it has fewer than N taxa;
-  * every non-root edge has a finite length >= 0 and all leaves are at the same distance from the root (1e-9 relative);
+  * every non-root edge has a finite length >= 0 and all leaves are at the same distance from the root (1e-9 relative),
+    which is > 0 (at least one waiting time lies between root and tips; birth-death trees: for N >= 3, because
+    growth stops at the event creating the N-th tip);
   * coalescent trees: exactly one leaf per taxon of the namespace; mean_kingman_tree: node ages are the cumulated
     expected waiting times pop_size / C(k, 2);
   * containment: for two genes of different species the age of their gene-tree MRCA is >= the age of the species MRCA
@@ -246,6 +248,10 @@ def examine(ctx, sim, tree, n_expected, one_leaf_per_taxon):
     hi, lo = max(d), min(d)
     ctx.check(hi - lo <= TOL * hi, "equidistant", K("equidistant", sim),
               lambda: "root-to-tip distances range from %r to %r (n=%d)" % (lo, hi, len(leaves)))
+    # at least one exponential (or expected) waiting time > 0 lies between the root and the tips; the birth-death
+    # simulators stop at the very event that creates the N-th tip, so for them this needs a second split (N >= 3)
+    if len(leaves) >= (3 if sim in ("birth_death_tree", "fast_birth_death_tree") else 2):
+        ctx.check(hi > 0, "lengths", K("zero_height", sim), "all root-to-tip distances are 0")
     return Seen(rt, depth, hi, rt.canon(ordered=True, lengths=True))
 
 
